@@ -414,9 +414,11 @@ type FuncContract struct {
 	Ensures   []Clause
 	Asserts   []Clause // checked at every return of the body (may mention locals); never assumed by callers
 	Assumes   []Clause // assumed at entry of the body without being a caller obligation (listed in the evidence)
+	Trusts    []Clause // postconditions assumed by callers but NOT checked against the body (listed as assumptions)
 	PostDefs  []Clause // spec-function definitions instantiated at the results (assumed at every return)
 	Decreases *Clause
 	Loops     map[int]*LoopSpec
+	InLoops   map[string]*LoopSpec // "calleeKey:N": extra clauses for loop N of a callee inlined into this function
 	Inline    bool
 	Trusted   bool     // contract assumed, body not verified
 	Pure      bool     // writes nothing (checked like any frame)
@@ -425,6 +427,8 @@ type FuncContract struct {
 	NoSweep   bool // do not generate safety obligations (function outside sweep)
 	Implements string // key of a functype contract whose clauses this function inherits
 	Reveal     map[string]bool // opaque predicates expanded in this function
+	Inlines    map[string]bool // callees expanded at their call sites inside this function only
+	FreshResult bool           // some ensures clause says fresh(result): the function returns a new object
 	Opaque    []string
 	File      string
 	Used      bool
@@ -471,10 +475,11 @@ type Contracts struct {
 	Assumes []string
 	FieldInv map[string]bool // "pkg.Type.field": the field is never nil in an allocated object
 	ArrayInv map[string]bool // array heap key suffix (element type): elements are never nil
+	MapInv   map[string]bool // "pkg|map type": values are never nil
 }
 
 func newContracts() *Contracts {
-	return &Contracts{Funcs: map[string]*FuncContract{}, Preds: map[string]*PredDef{}, Specs: map[string]*SpecFunc{}, FieldInv: map[string]bool{}, ArrayInv: map[string]bool{}}
+	return &Contracts{Funcs: map[string]*FuncContract{}, Preds: map[string]*PredDef{}, Specs: map[string]*SpecFunc{}, FieldInv: map[string]bool{}, ArrayInv: map[string]bool{}, MapInv: map[string]bool{}}
 }
 
 func splitLabel(s string) (label, rest string) {
@@ -566,6 +571,16 @@ func (c *Contracts) loadFile(path string, pkgName string) error {
 			}
 			cur.Assumes = append(cur.Assumes, cl)
 			c.Assumes = append(c.Assumes, fmt.Sprintf("%s: %s", cur.Key, rest))
+		case "trusts":
+			if cur == nil {
+				return fmt.Errorf("%s:%d: trusts outside func", path, j.line)
+			}
+			cl, err := mkClause(rest, j.line)
+			if err != nil {
+				return err
+			}
+			cur.Trusts = append(cur.Trusts, cl)
+			c.Assumes = append(c.Assumes, fmt.Sprintf("%s (trusted postcondition): %s", cur.Key, rest))
 		case "requires", "ensures", "decreases", "asserts":
 			if cur == nil {
 				return fmt.Errorf("%s:%d: clause outside func", path, j.line)
@@ -579,6 +594,9 @@ func (c *Contracts) loadFile(path string, pkgName string) error {
 				cur.Requires = append(cur.Requires, cl)
 			case "ensures":
 				cur.Ensures = append(cur.Ensures, cl)
+				if strings.Contains(rest, "fresh(result)") {
+					cur.FreshResult = true
+				}
 			case "asserts":
 				cur.Asserts = append(cur.Asserts, cl)
 			case "decreases":
@@ -592,14 +610,27 @@ func (c *Contracts) loadFile(path string, pkgName string) error {
 			if len(parts) < 3 {
 				return fmt.Errorf("%s:%d: bad loop clause", path, j.line)
 			}
-			n, err := strconv.Atoi(parts[0])
-			if err != nil {
-				return fmt.Errorf("%s:%d: bad loop ordinal", path, j.line)
-			}
-			ls := cur.Loops[n]
-			if ls == nil {
-				ls = &LoopSpec{}
-				cur.Loops[n] = ls
+			var ls *LoopSpec
+			if ci := strings.LastIndex(parts[0], ":"); ci > 0 {
+				// loop <calleeKey>:<n> ... — clauses for a loop of a callee that is inlined here
+				if cur.InLoops == nil {
+					cur.InLoops = map[string]*LoopSpec{}
+				}
+				ls = cur.InLoops[parts[0]]
+				if ls == nil {
+					ls = &LoopSpec{}
+					cur.InLoops[parts[0]] = ls
+				}
+			} else {
+				n, err := strconv.Atoi(parts[0])
+				if err != nil {
+					return fmt.Errorf("%s:%d: bad loop ordinal", path, j.line)
+				}
+				ls = cur.Loops[n]
+				if ls == nil {
+					ls = &LoopSpec{}
+					cur.Loops[n] = ls
+				}
 			}
 			cl, err := mkClause(strings.TrimSpace(parts[2]), j.line)
 			if err != nil {
@@ -626,6 +657,13 @@ func (c *Contracts) loadFile(path string, pkgName string) error {
 			cur.NoSweep = true
 		case "implements":
 			cur.Implements = rest
+		case "inlines":
+			if cur.Inlines == nil {
+				cur.Inlines = map[string]bool{}
+			}
+			for _, r := range strings.Split(rest, ",") {
+				cur.Inlines[strings.TrimSpace(r)] = true
+			}
 		case "reveal":
 			if cur.Reveal == nil {
 				cur.Reveal = map[string]bool{}
@@ -692,6 +730,13 @@ func (c *Contracts) loadFile(path string, pkgName string) error {
 				return fmt.Errorf("%s:%d: ghost Type field sort", path, j.line)
 			}
 			c.Ghosts = append(c.Ghosts, &GhostField{f[0], f[1], f[2]})
+			cur = nil
+		case "mapinv":
+			f := strings.Fields(rest)
+			if len(f) != 2 || f[1] != "nonnil" {
+				return fmt.Errorf("%s:%d: mapinv <map type> nonnil", path, j.line)
+			}
+			c.MapInv[pkgName+"|"+f[0]] = true
 			cur = nil
 		case "arrayinv":
 			f := strings.Fields(rest)
